@@ -147,6 +147,15 @@ func (k *Checker) checkQueries(n *Node, st *raft.VerifState, x *nodeChk) {
 				}
 			}
 		}
+		if st.FirstIndex >= 2 {
+			// a range that starts below the first index answers ErrCompacted (also
+			// while an accepted snapshot that raised the first index is not
+			// persisted yet)
+			if got, err := n.rn.VerifLogSlice(st.FirstIndex-1, st.FirstIndex, ^uint64(0)); err != raft.ErrCompacted {
+				msg = fmt.Sprintf("slice[%d,%d) starting below the first index %d answered (%d entries, %v), want ErrCompacted", st.FirstIndex-1, st.FirstIndex, st.FirstIndex, len(got), err)
+				return
+			}
+		}
 		if len(x.log) == 0 {
 			return
 		}
